@@ -25,7 +25,7 @@ func regFunc(coq, pkg, key string) { funcItems = append(funcItems, funcItem{coq,
 func init() { generators = append(generators, genFuncs) }
 
 type gtype struct {
-	bits    int  // 0 = untyped constant
+	bits    int // 0 = untyped constant
 	signed  bool
 	isBool  bool
 	strct   *ast.StructType
@@ -452,51 +452,58 @@ func genFuncs() {
 	b.WriteString("From Coq Require Import ZArith Bool.\nFrom DV Require Import Base.GoInt.\nLocal Open Scope Z_scope.\n\n")
 	sort.SliceStable(funcItems, func(i, j int) bool { return funcItems[i].coq < funcItems[j].coq })
 	for _, it := range funcItems {
-		p := loadPkg(it.pkg)
-		fd, ok := p.funcs[it.key]
-		if !ok {
-			fail("gen_funcs: function %s not found in %s", it.key, it.pkg)
-		}
-		var file *ast.File
-		for _, f := range p.files {
-			if f.Pos() <= fd.Pos() && fd.End() <= f.End() {
-				file = f
+		it := it
+		var fb strings.Builder
+		if !isolated("func "+it.pkg+"."+it.key, func() {
+			p := loadPkg(it.pkg)
+			fd, ok := p.funcs[it.key]
+			if !ok {
+				fail("gen_funcs: function %s not found in %s", it.key, it.pkg)
 			}
-		}
-		t := &ftrans{p: p, f: file, vars: map[string]gtype{}}
-		var params []string
-		for _, fld := range fd.Type.Params.List {
-			g := t.resolveType(fld.Type)
-			for _, n := range fld.Names {
-				t.vars[n.Name] = g
-				if g.strct != nil {
-					for _, sf := range g.strct.Fields.List {
-						for _, sn := range sf.Names {
-							params = append(params, coqVar(n.Name+"_"+sn.Name))
-						}
-					}
-				} else {
-					params = append(params, coqVar(n.Name))
+			var file *ast.File
+			for _, f := range p.files {
+				if f.Pos() <= fd.Pos() && fd.End() <= f.End() {
+					file = f
 				}
 			}
-		}
-		var pre []string
-		if fd.Type.Results != nil {
-			for _, fld := range fd.Type.Results.List {
+			t := &ftrans{p: p, f: file, vars: map[string]gtype{}}
+			var params []string
+			for _, fld := range fd.Type.Params.List {
 				g := t.resolveType(fld.Type)
 				for _, n := range fld.Names {
 					t.vars[n.Name] = g
-					t.named = append(t.named, n.Name)
-					pre = append(pre, fmt.Sprintf("let %s := 0%%Z in", coqVar(n.Name)))
+					if g.strct != nil {
+						for _, sf := range g.strct.Fields.List {
+							for _, sn := range sf.Names {
+								params = append(params, coqVar(n.Name+"_"+sn.Name))
+							}
+						}
+					} else {
+						params = append(params, coqVar(n.Name))
+					}
 				}
 			}
+			var pre []string
+			if fd.Type.Results != nil {
+				for _, fld := range fd.Type.Results.List {
+					g := t.resolveType(fld.Type)
+					for _, n := range fld.Names {
+						t.vars[n.Name] = g
+						t.named = append(t.named, n.Name)
+						pre = append(pre, fmt.Sprintf("let %s := 0%%Z in", coqVar(n.Name)))
+					}
+				}
+			}
+			body := t.block(fd.Body.List, func() string {
+				fail("gen_funcs: %s: control reaches the end of the function without return", it.key)
+				return ""
+			})
+			fmt.Fprintf(&fb, "(* %s: func %s *)\nDefinition f_%s (%s : Z) :=\n  %s %s.\n\n", it.pkg, it.key, it.coq,
+				strings.Join(params, " "), strings.Join(pre, " "), body)
+		}) {
+			continue
 		}
-		body := t.block(fd.Body.List, func() string {
-			fail("gen_funcs: %s: control reaches the end of the function without return", it.key)
-			return ""
-		})
-		fmt.Fprintf(&b, "(* %s: func %s *)\nDefinition f_%s (%s : Z) :=\n  %s %s.\n\n", it.pkg, it.key, it.coq,
-			strings.Join(params, " "), strings.Join(pre, " "), body)
+		b.WriteString(fb.String())
 	}
 	writeIfChanged(filepath.Join(*out, "Funcs.v"), b.String())
 }
